@@ -88,13 +88,39 @@ func (q *qgen) widen(x gen.Query) {
 // A finding is identified by the operator of the smallest violating sub-expression, the
 // violated clause and (optionally) a fragment of the reported type.
 type finding struct {
-	id   string
-	ops  []string // culprit operators ("" matches any)
-	kind string   // violation kind
-	typ  string   // substring of the reported type's name ("" = any)
+	id    string
+	ops   []string // culprit operators; an entry ending in ":" is a prefix
+	kinds []string // violation kinds (empty = any)
+	outer bool     // only in statements with an outer join
 }
 
-var findings = []finding{}
+var dateOps = []string{"DATE", "YEAR", "MONTH", "DAY", "HOUR", "MINUTE", "SECOND", "MICROSECOND", "DAYOFWEEK", "DAYOFYEAR", "WEEK", "WEEKDAY", "YEARWEEK", "QUARTER", "DAYNAME", "MONTHNAME", "LAST_DAY",
+	"DATE_ADD", "DATE_SUB", "+INTERVAL", "-INTERVAL", "DATEDIFF", "TIMESTAMPDIFF", "TIMESTAMPADD", "DATE_FORMAT", "TIME_FORMAT", "STR_TO_DATE", "UNIX_TIMESTAMP", "FROM_UNIXTIME", "TIME", "TIMEDIFF", "SEC_TO_TIME",
+	"TIME_TO_SEC", "MAKEDATE", "MAKETIME", "TO_DAYS", "FROM_DAYS", "TO_SECONDS", "ADDTIME", "SUBTIME", "EXTRACT", "TIMESTAMP", "PERIOD_ADD", "PERIOD_DIFF", "CAST", "CONVERT"}
+
+var findings = []finding{
+	// aggregates over an empty input (or only NULLs) return NULL but report NOT NULL when their argument is NOT NULL
+	{id: "C09-aggregate-not-nullable", kinds: []string{vNull}, ops: []string{"SUM", "SUM_DISTINCT", "AVG", "MIN", "MAX", "gen:min", "gen:max", "gen:sum", "gen:avg", "STD", "STDDEV_SAMP", "VAR_SAMP", "VARIANCE",
+		"GROUP_CONCAT", "JSON_ARRAYAGG", "JSON_OBJECTAGG", "ANY_VALUE", "BIT_AND", "BIT_OR", "BIT_XOR", "WMIN", "WMAX", "WSUM", "WAVG", "WGROUP_CONCAT", "WJSON_ARRAYAGG", "WBIT_OR", "FIRST_VALUE", "LAST_VALUE", "LAG", "LEAD", "wrap:"}},
+	// the null-supplying side of an outer join keeps its NOT NULL columns NOT NULL when the ON clause has a constant conjunct
+	{id: "C09-outer-join-not-null", kinds: []string{vNull}, outer: true, ops: []string{"col", "col-outer-join", "gen:", "ctx:"}},
+	// STD/VARIANCE report their argument's type and return a DOUBLE
+	{id: "C09-variance-type", kinds: []string{vChanged, vKind, vSQL, vRange, vDigits, vLength, vConvert}, ops: []string{"STD", "STDDEV_SAMP", "VAR_SAMP", "VARIANCE"}},
+	// arithmetic / rounding result types narrower than the values they produce
+	{id: "C09-arithmetic-result-type", kinds: []string{vDigits, vRange, vSQL}, ops: []string{"+", "-", "*", "/", "%", "MOD", "DIV", "unary-", "ROUND", "TRUNCATE", "ABS", "CEIL", "FLOOR", "<<", ">>", "~", "wrap:", "SUM", "AVG", "WSUM", "WAVG", "gen:arith", "gen:sum", "gen:avg"}},
+	// LAG/LEAD return their default argument unconverted
+	{id: "C09-lag-lead-default-type", kinds: []string{vChanged, vKind, vSQL, vRange, vDigits, vLength, vConvert, vMember, vCharset}, ops: []string{"LAG", "LEAD"}},
+	// temporal functions report NOT NULL but return NULL for an argument that is not a valid date/time
+	{id: "C09-time-part-not-nullable", kinds: []string{vNull}, ops: dateOps},
+	// JSON functions that return NULL for a missing path / non-object report NOT NULL
+	{id: "C09-json-function-not-nullable", kinds: []string{vNull}, ops: []string{"JSON_", "->", "->>"}},
+	// functions that report the type of their argument although they return a string / a datetime
+	{id: "C09-function-reports-argument-type", kinds: []string{vKind, vSQL, vChanged, vConvert}, ops: []string{"SUBSTRING", "SUBSTRING_INDEX", "LEFT", "RIGHT", "UPPER", "LOWER", "TIMESTAMP", "CONVERT_USING", "REVERSE", "TRIM", "LTRIM", "RTRIM", "REPEAT", "REPLACE", "INSERT"}},
+	// LPAD/RPAD cut their pad string at a byte position inside a multi-byte character
+	{id: "C09-pad-multibyte", kinds: []string{vCharset}, ops: []string{"LPAD", "RPAD"}},
+	// UNION of a FLOAT/DOUBLE branch and a DECIMAL branch is typed DECIMAL(65,30) and holds values with more than 35 integer digits
+	{id: "C09-union-decimal-overflow", kinds: []string{vDigits}, ops: []string{"setop"}},
+}
 
 type located struct {
 	Op    string `json:"op"`
@@ -109,11 +135,18 @@ type located struct {
 func classify(l located) *finding {
 	for i := range findings {
 		f := &findings[i]
-		if f.kind != l.Kind || (f.typ != "" && !strings.Contains(strings.ToLower(l.Type), f.typ)) {
+		kindOK := len(f.kinds) == 0
+		for _, k := range f.kinds {
+			kindOK = kindOK || k == l.Kind
+		}
+		if !kindOK {
+			continue
+		}
+		if f.outer && !strings.Contains(l.Query, "LEFT JOIN") && !strings.Contains(l.Query, "RIGHT JOIN") {
 			continue
 		}
 		for _, op := range f.ops {
-			if op == "" || op == l.Op {
+			if op == l.Op || ((strings.HasSuffix(op, ":") || strings.HasSuffix(op, "_")) && strings.HasPrefix(l.Op, op)) {
 				return f
 			}
 		}
